@@ -15,7 +15,7 @@ func init() { runners["C20"] = runC20 }
 
 type c20Case struct {
 	Client bool     `json:"client"`
-	Ops    []string `json:"ops"`  // write | read | ping | closeread | netconn | abandon-reader | abandon-writer | peer-data
+	Ops    []string `json:"ops"`  // write | read | ping | closeread | netconn | abandon-reader | abandon-writer | peer-data | peer-partial-frame
 	End    string   `json:"end"`  // none | close | closenow | peer-close | proto-error | ctx-expiry | transport-failure | close-in-background
 	Then   string   `json:"then"` // close | closenow | close-long-reason | close-bad-code : the call after which no goroutine may remain
 	// EchoDelayMs: the peer answers a Close frame only after this long (a close handshake is then still
@@ -122,6 +122,12 @@ func runC20Case(cc c20Case) (string, string) {
 		case "peer-data":
 			// a data message nobody asked for: after CloseRead it makes the CloseRead goroutine close the connection
 			peer.writeFrame(RawFrame{Fin: true, Op: 1, Payload: []byte("unsolicited")})
+			time.Sleep(10 * time.Millisecond)
+		case "peer-partial-frame":
+			// the peer starts a data frame and stalls inside its payload, leaving the transport open (after
+			// CloseRead the CloseRead goroutine then closes the connection and has to skip that payload)
+			f := RawFrame{Fin: true, Op: 2, Masked: !cc.Client, Key: [4]byte{3, 1, 4, 1}, Payload: make([]byte, 300)}
+			b.Write(f.Encode()[:40])
 			time.Sleep(10 * time.Millisecond)
 		case "abandon-writer":
 			if w, err := c.Writer(octx, websocket.MessageText); err == nil {
@@ -247,6 +253,13 @@ func runC20(ctx *runCtx) {
 				cases = append(cases, c20Case{Client: len(cases)%2 == 0, Ops: []string{op}, End: e, Then: t})
 			}
 		}
+	}
+	// CloseRead, then the peer stalls inside a data frame: the close handshake started by the CloseRead goroutine
+	// has to give up on its own (≈5 s) so that the final call finds no goroutine left
+	cases = append(cases, c20Case{Client: false, Ops: []string{"closeread", "peer-partial-frame"}, End: "none", Then: "close"})
+	if ctx.thorough() {
+		cases = append(cases, c20Case{Client: true, Ops: []string{"closeread", "peer-partial-frame"}, End: "none", Then: "close"},
+			c20Case{Client: true, Ops: []string{"closeread", "peer-partial-frame"}, End: "none", Then: "closenow"})
 	}
 	// Close with arguments that cannot be sent, as the first and only closing call
 	for _, t := range []string{"close-long-reason", "close-bad-code"} {
